@@ -195,18 +195,19 @@ After(k, i) == IF k = "mu8" THEN ToString(i + 100) ELSE "[" \o ToString(i) \o ",
 \* "ref" &u32 borrowed from self (elided) | "sref" the same with the lifetime spelled out: fn f<'s>(&'s self, ..) -> &'s u32
 \* "optref" Option<&u32> | "static" &'static str | "assoc" Self::Out (type Out = u32 given in the attribute)
 \* "pref" the first parameter, a `&'a str`, handed back: fn f<'a>(.., a1: &'a str, ..) -> &'a str
-RetKinds == {"u32", "string", "opt", "ref", "sref", "optref", "static", "assoc", "pref"}
-SelfBorrowing == {"ref", "sref", "optref"}
+\* "dynref" &dyn Display borrowed from self | "boxdyn" Box<dyn Display> (trait objects: the macro adds the 'static bound)
+RetKinds == {"u32", "string", "opt", "ref", "sref", "optref", "static", "assoc", "pref", "dynref", "boxdyn"}
+SelfBorrowing == {"ref", "sref", "optref", "dynref"}
 RetView(r) == CASE r = "u32" -> "4242" [] r = "string" -> "ret" [] r = "opt" -> "Some(7)" [] r = "optref" -> "Some(&77)"
-                [] r = "static" -> "&lit" [] r = "assoc" -> "4242" [] r = "pref" -> "&s1" [] OTHER -> "&77"
+                [] r = "static" -> "&lit" [] r = "assoc" -> "4242" [] r = "pref" -> "&s1" [] r = "boxdyn" -> "box 78" [] OTHER -> "&77"
 AsyncKinds == {"none", "asyncfn", "implfuture"}
 ApiForms == {"module", "flattened", "hidden"}
 \* what the attribute and Rust accept (measured, DESIGN Appendix G)
 ValidShape(sh) ==
   /\ (sh.ret \in SelfBorrowing => sh.recv \in {"ref", "mut", "pin"} /\ sh.async = "none")
   /\ (sh.ret = "sref" => sh.recv = "ref")
-  /\ (sh.ret \in {"static", "assoc", "pref"} => sh.async = "none")
-  /\ (sh.ret \in {"assoc", "pref"} => sh.api # "hidden")
+  /\ (sh.ret \in {"static", "assoc", "pref", "boxdyn"} => sh.async = "none")
+  /\ (sh.ret \in {"assoc", "pref", "boxdyn"} => sh.api # "hidden")
   \* (measured: the generated impl of a parameter-borrowing return does not pass borrowck when another parameter is a
   \*  reference of any kind or the receiver is `&mut self` / `Pin<&mut Self>`: such traits are rejected at compile time)
   /\ (sh.ret = "pref" => Len(sh.params) >= 1 /\ sh.params[1] = "str" /\ sh.recv \notin {"mut", "pin"}
